@@ -213,6 +213,18 @@ pub fn sender_encode(
     slot_of: &mut dyn FnMut(&str) -> Option<u16>,
     picker: &mut dyn Picker,
 ) -> (Vec<u8>, Vec<HeaderRef>) {
+    sender_encode_opts(control, payload, cache, slot_of, picker, false)
+}
+
+/// `allow_local`: identifiers may be wrapped as LOCAL_EXT (what a node does with identifiers it got from this peer).
+pub fn sender_encode_opts(
+    control: &Value,
+    payload: Option<&Value>,
+    cache: &mut SenderCache,
+    slot_of: &mut dyn FnMut(&str) -> Option<u16>,
+    picker: &mut dyn Picker,
+    allow_local: bool,
+) -> (Vec<u8>, Vec<HeaderRef>) {
     let mut atoms = vec![];
     atoms_of(control, &mut atoms);
     if let Some(p) = payload {
@@ -239,7 +251,7 @@ pub fn sender_encode(
     let mut out = vec![131u8, 68];
     out.extend_from_slice(&hdr_write(&refs));
     let mut e = Enc::new(picker);
-    e.allow_local = false;
+    e.allow_local = allow_local;
     e.allow_legacy = false;
     e.atom_refs = Some(&map);
     e.term(control);
